@@ -31,9 +31,17 @@ func (self ValueAnyObject) Display() (string, *Interrupt) {
 func (self ValueAnyObject) IsEqual(other Value) (bool, *Interrupt) {
 	otherObj := other.(ValueAnyObject)
 
+	// both objects need to have the same set of keys
+	if len(self.FieldsInternal) != len(otherObj.FieldsInternal) {
+		return false, nil
+	}
+
 	for key, value := range self.FieldsInternal {
 		otherValue, found := otherObj.FieldsInternal[key]
 		if !found {
+			return false, nil
+		}
+		if (*value).Kind() != (*otherValue).Kind() {
 			return false, nil
 		}
 		isEqual, i := (*value).IsEqual(*otherValue)
